@@ -50,6 +50,9 @@ SHAPES = {
     # only a line that IS '.' ends a data block; Tor dot-stuffs lines that begin with '.', nothing else
     'Dsp': (250, [('data', 'k=', [' .', 'b', '\t.', '. ', 'c']), ('line', 'OK')]),
 }
+# 8-bit text (control-spec: all 8-bit characters are permitted; relays' contact lines, file paths in messages)
+SHAPES['U8'] = (250, [('line', 'contact=Jos\u00e9'), ('data', 'desc=', ['contact Jos\u00e9 <j@x>', 'platform Tor']), ('line', 'OK')])
+SHAPES['EU8'] = (552, [('line', 'Unrecognized option "caf\u00e9"')])
 SEQ_SHAPES_Q = ['S', 'M1', 'MT', 'D', 'Dx', 'E', 'EM']
 SEQ_SHAPES_T = ['S', 'T', 'M1', 'M2', 'MT', 'D', 'DM', 'Dx', 'E', 'EM']
 SEG_SHAPES = list(SHAPES)
